@@ -57,6 +57,10 @@ func toRegexString(pattern string) string {
 	pattern = strings.ReplaceAll(pattern, "*", "[^/]*")       // handle single (all) * components
 	pattern = strings.ReplaceAll(pattern, "[^/]*[^/]*", ".*") // handle ** components
 	pattern = strings.ReplaceAll(pattern, "/.*/", "/(.*/)?")  // Allow ** to match zero directories
+	if rest, ok := strings.CutPrefix(pattern, "^.*/"); ok {
+		// Same for a leading **/, which has no / before it (e.g. any such pattern in the root package)
+		pattern = "^(.*/)?" + rest
+	}
 	return pattern
 }
 
